@@ -82,7 +82,14 @@ def run(ctx, rep, r1="R10.1", r2="R10.2", only_transform=False):
         rep.rule(r2, "bounds and constraints are normalised to one internal form whatever way they are stated")
     f = ctx.func(PINIT)
     bx = ctx.func(T.BUILD_X)
-    ex = Expander(ctx, f)
+    from ..inline import expander
+    inl = expander(ctx, f)
+    inl_bx = expander(ctx, bx)
+
+    class _Ex:
+        def expand(self, e, at):
+            return inl.expand(e, at), at
+    ex = _Ex()
     # the LinearConstraints(...) constructions of the reduced and of the scaled system
     builds = []
     for node in ast.walk(f.node):
@@ -107,13 +114,14 @@ def run(ctx, rep, r1="R10.1", r2="R10.2", only_transform=False):
                 rep.finding(r1, f, norm(c)[:100], c.lineno, "block is not LinearConstraint(A, lb, ub)")
                 continue
             A, lb, ub = c.args
+            A = inl.expand(A, c)
             probs = []
             if kind == "ub":
                 if norm(lb).replace(" ", "") not in ("-np.inf", "-numpy.inf"):
                     probs.append(f"lower limit of the inequality block is `{norm(lb)}` instead of -inf")
                 rhs_e, rhs_at = ex.expand(ub, c)
             else:
-                if norm(lb) != norm(ub):
+                if norm(inl.expand(lb, c)) != norm(inl.expand(ub, c)):
                     probs.append(f"equality block with different limits `{norm(lb)}` / `{norm(ub)}`")
                 rhs_e, rhs_at = ex.expand(ub, c)
             m = match_rhs(rhs_e)
@@ -170,9 +178,9 @@ def run(ctx, rep, r1="R10.1", r2="R10.2", only_transform=False):
     free = None
     for node in ast.walk(bx.node):
         if isinstance(node, ast.Assign) and isinstance(node.targets[0], ast.Subscript):
-            m = norm(node.targets[0].slice)
+            m = norm(inl_bx.expand(node.targets[0].slice, node))
             if m == "~" + fixed_mask:
-                free = node.value
+                free = inl_bx.expand(node.value, node)
     if free is None:
         raise AnalysisError("build_x: store under the free mask not found")
     xparam = bx.params[1]
@@ -194,7 +202,7 @@ def run(ctx, rep, r1="R10.1", r2="R10.2", only_transform=False):
         rep.ok(r1, f"build_x: free variables = {xparam} * scaling_factor + scaling_shift")
     else:
         rep.bad(r1, "build_x point map")
-        rep.finding(r1, bx, norm(free)[:100], free.lineno, "build_x does not map the reduced point as x * scaling_factor + scaling_shift (the map the scaled linear system assumes)")
+        rep.finding(r1, bx, norm(free)[:100], bx.node.lineno, "build_x does not map the reduced point as x * scaling_factor + scaling_shift (the map the scaled linear system assumes)")
     # x0 rescaling = inverse of the point map; factor/shift definitions
     defs = {}
     for node in ast.walk(f.node):
@@ -217,7 +225,7 @@ def run(ctx, rep, r1="R10.1", r2="R10.2", only_transform=False):
             continue
         first, second = nodes
         try:
-            co = affine(first.value, symb)
+            co = affine(inl.expand(first.value, first), symb)
             co = {k: v for k, v in co.items() if v != 0.0}
             good = co == want
         except NotAffine:
@@ -251,7 +259,7 @@ def run(ctx, rep, r1="R10.1", r2="R10.2", only_transform=False):
     okx = False
     for node in ast.walk(f.node):
         if isinstance(node, ast.Assign) and any(isinstance(t, ast.Attribute) and t.attr == "_x0" for t in node.targets):
-            v = node.value
+            v = inl.expand(node.value, node)
             if isinstance(v, ast.BinOp) and isinstance(v.op, ast.Div) and norm(v.right) == "self._scaling_factor" and isinstance(v.left, ast.BinOp) and isinstance(v.left.op, ast.Sub) and norm(v.left.right) == "self._scaling_shift" and norm(v.left.left) == "self._x0":
                 okx = True
     if okx:
@@ -262,7 +270,7 @@ def run(ctx, rep, r1="R10.1", r2="R10.2", only_transform=False):
     # reduced bounds / x0 use the complement of the fixed mask
     for node in ast.walk(f.node):
         if isinstance(node, ast.Assign) and any(isinstance(t, ast.Attribute) and t.attr in ("_bounds", "_x0") for t in node.targets):
-            for sub in ast.walk(node.value):
+            for sub in ast.walk(inl.expand(node.value, node)):
                 if isinstance(sub, ast.Subscript) and mentions(sub.slice, "_fixed_idx"):
                     if norm(sub.slice) == "~" + fixed_mask:
                         rep.ok(r1, f"{f.local}:{node.lineno} `{norm(sub)[:40]}` keeps the free variables")
@@ -277,17 +285,18 @@ def run(ctx, rep, r1="R10.1", r2="R10.2", only_transform=False):
     common.check_closure_capture(ctx, rep, r2)
     gb = ctx.func("cobyqa.main:_get_bounds")
     n = 0
+    inl_gb = expander(ctx, gb)
     for node in ast.walk(gb.node):
         if isinstance(node, ast.Return) and _short(node.value) == "Bounds":
             n += 1
-            a = [norm(x).replace(" ", "") for x in node.value.args]
+            a = [norm(inl_gb.expand(x, node)).replace(" ", "") for x in node.value.args]
             good = False
             if len(a) == 2:
                 if a[0].endswith(".lb") and a[1].endswith(".ub"):
                     good = True
                 if a[0].endswith("[:,0]") and a[1].endswith("[:,1]"):
                     good = True
-                if "-np.inf" in a[0] and "np.inf" in a[1] and "-" not in a[1]:
+                if "-np.inf" in a[0] and "np.inf" in a[1] and "-np.inf" not in a[1]:
                     good = True
             if good:
                 rep.ok(r2, f"{gb.local}:{node.lineno} Bounds({', '.join(a)})")
